@@ -72,6 +72,9 @@ func c13(w *core.World, r *core.Report) {
 	r.Rule("R13.7", "with bidirectional sync on, data reaches the target only through the marker writers: every unmarked replay path is entered only when bisyncEnabled() is false", 3)
 	ruleMarkerPathSelection(w, r)
 
+	r.Rule("R13.8", "on the bidirectional paths nothing but reads and bookkeeping is sent outside a marker-led transaction", 1)
+	ruleNoBareWritesOnBisyncPaths(w, r)
+
 	r.Rule("R13.6", "transaction buffer: fresh at MULTI, dropped after EXEC, append-only; a mirrored transaction emits nothing", 4)
 	ruleTxnBuffer(w, r)
 }
@@ -608,4 +611,79 @@ func outermost(f *ssa.Function) *ssa.Function {
 		f = f.Parent()
 	}
 	return f
+}
+
+// ---------------------------------------------------------------- R13.8 nothing is written outside a marker-led transaction on the bidirectional paths
+
+// ruleNoBareWritesOnBisyncPaths: with bidirectional sync on, every write the
+// tool makes at a site must travel in a transaction that starts with the
+// marker (R13.1), otherwise the opposite link takes it for a client write and
+// sends it back. On the bidirectional code paths a command may be issued
+// directly on a connection (Do / Send / SendAndFlush, not through a
+// transaction batcher) only if it does not write user data: a read-only
+// command, or a command on the tool's own bookkeeping keys.
+func ruleNoBareWritesOnBisyncPaths(w *core.World, r *core.Report) {
+	readOnly := map[string]bool{"exists": true, "get": true, "hget": true, "hgetall": true, "hmget": true, "zrangebyscore": true, "zrange": true,
+		"info": true, "command": true, "ping": true, "select": true, "type": true, "ttl": true, "pttl": true, "cluster": true, "scan": true, "keys": true, "dbsize": true}
+	isBookkeepingKey := func(v ssa.Value) bool {
+		return core.DependsOn(v, func(x ssa.Value) bool {
+			if c, ok := x.(*ssa.Call); ok {
+				n := core.ResolveCall(c).Name
+				if strings.HasPrefix(n, "pkg/redis/checkpoint.") || strings.Contains(n, "bisyncCheckpointName") || strings.Contains(n, "CheckpointName") {
+					return true
+				}
+			}
+			if fieldNameOfLoad(x) == "CheckpointName" || fieldNameOfLoad(x) == "Key" {
+				return true
+			}
+			if s, ok := core.ConstString(x); ok && (strings.HasPrefix(s, reservedPrefix(w)) || strings.HasPrefix(s, "redis-gunyu")) {
+				return true
+			}
+			return false
+		})
+	}
+	n, direct := 0, 0
+	for _, f := range w.FuncsIn("syncer") {
+		file := w.Pos(f.Pos())
+		if !strings.Contains(file, "syncer/bisync") {
+			continue
+		}
+		n++
+		for _, s := range core.Sites(f, false) {
+			if s.Instr.Parent() != f || !(s.Method == "Do" || s.Method == "Send" || s.Method == "SendAndFlush") {
+				continue
+			}
+			recvT := ""
+			if s.Common().IsInvoke() {
+				recvT = core.TypeName(s.Common().Value.Type())
+			} else if len(s.Common().Args) > 0 {
+				recvT = core.TypeName(s.Common().Args[0].Type())
+			}
+			if !strings.Contains(recvT, "client.Redis") && !strings.Contains(recvT, "redis") && !strings.Contains(recvT, "Redis") {
+				continue // sync.Once.Do and the like
+			}
+			direct++
+			cmd, ok := core.CmdName(s)
+			name := shortName(core.FuncName(outermost(f)))
+			if !ok {
+				r.Check(false, name+"/no-bare-write", s.Pos(), "a command whose name is not a constant is issued directly on a connection on a bidirectional path: it cannot be shown to leave user data alone")
+				continue
+			}
+			if readOnly[strings.ToLower(cmd)] {
+				r.OK(name+"/no-bare-write", s.Pos(), "%s", cmd)
+				continue
+			}
+			keyOK := false
+			if args, ok := core.CmdArgs(s); ok && len(args) >= 1 {
+				keyOK = isBookkeepingKey(args[0])
+			}
+			r.Check(keyOK, name+"/no-bare-write", s.Pos(), "%s is sent to the target directly (outside a marker-led transaction) on a bidirectional path, on a key that is not one of the tool's bookkeeping keys: the opposite link takes it for a client write and sends it back to the site the data came from", strings.ToUpper(cmd))
+		}
+	}
+	if n == 0 {
+		r.Fail("bisync/no-bare-write", token.NoPos, "no function of the bidirectional paths found")
+	}
+	if direct == 0 {
+		r.OK("bisync/no-bare-write", token.NoPos, "no direct command on the bidirectional paths")
+	}
 }
